@@ -151,3 +151,38 @@ Proof.
   - cbn [toValue]. rewrite (wrap_id _ _ Hw). reflexivity.
   - exfalso. apply (Hn b). reflexivity.
 Qed.
+
+(* ---------- saturation: every uint/uint64 from 2^63 up reads as MaxInt64, as the int64 API requires ---------- *)
+Lemma round_ge_2_63 : forall n, 2 ^ 63 <= n < 2 ^ 64 -> 2 ^ 63 <= round_to_double n.
+Proof.
+  intros n H. unfold round_to_double.
+  assert (Ha : Z.abs n = n) by lia. rewrite Ha.
+  destruct (Z.ltb_spec n (2 ^ 53)); [change (2 ^ 53) with 9007199254740992 in *; change (2 ^ 63) with 9223372036854775808 in *; lia|].
+  assert (L : Z.log2 n = 63) by (apply Z.log2_unique; [lia | change (2 ^ Z.succ 63) with (2 ^ 64); lia]).
+  rewrite L. change (63 - 52) with 11. change (2 ^ (11 - 1)) with 1024. change (2 ^ 11) with 2048.
+  assert (S : Z.sgn n = 1) by (apply Z.sgn_pos; change (2 ^ 63) with 9223372036854775808 in H; lia).
+  rewrite S.
+  change (2 ^ 63) with 9223372036854775808 in *. change (2 ^ 64) with 18446744073709551616 in *.
+  assert (Q : 4503599627370496 <= n / 2048) by (apply Z.div_le_lower_bound; lia).
+  destruct (n mod 2048 <? 1024); [lia|].
+  destruct (1024 <? n mod 2048); [lia|].
+  destruct (Z.even (n / 2048)); lia.
+Qed.
+
+Theorem to_integer_saturates : forall sn refl k n, k = KUint \/ k = KUint64 ->
+  in_range k n -> 2 ^ 63 <= n ->
+  to_integer sn (toValue refl (GInt k n)) = Ok max64 /\ spec_to_integer sn (GInt k n) = max64.
+Proof.
+  intros sn refl k n Hk Hr Hn.
+  assert (Hv : toValue refl (GInt k n) = VInt k n).
+  { cbn [toValue]. destruct refl; [rewrite (wrap_id _ _ Hr)|]; reflexivity. }
+  rewrite Hv. cbn [to_integer spec_to_integer].
+  assert (Hd : number_direct k = false) by (destruct Hk; subst; reflexivity).
+  rewrite Hd.
+  assert (Hb : 2 ^ 63 <= n < 2 ^ 64).
+  { unfold in_range, lo, hi in Hr. destruct Hk; subst; cbn [is_signed width] in Hr; lia. }
+  pose proof (round_ge_2_63 n Hb) as Hge.
+  unfold sat64. split.
+  - destruct (Z.leb_spec (2 ^ 63) (round_to_double n)); [reflexivity | lia].
+  - destruct (Z.leb_spec (2 ^ 63) n); [reflexivity | lia].
+Qed.
